@@ -107,6 +107,7 @@ func runC09on(c *Ctx, linux bool) {
 	checkRetryableSkipped(c)
 	checkRetryablePredicate(c)
 	checkNoPanic(c, roots)
+	checkDecodeFeedback(c, roots)
 	checkStateDeref(c)
 	if linux {
 		checkBCE(c, roots)
@@ -612,6 +613,46 @@ func checkNoPanic(c *Ctx, roots []*ssa.Function) {
 		ctl = append(ctl, f)
 	}
 	R.Floor("R09.3:control(Must* found under parseTarget)", len(scan(ctl)), 1)
+}
+
+// checkDecodeFeedback is R09.3(d): gopacket's layer decoders call df.SetTruncated() unguarded when the input is shorter than the
+// layer's fixed header, so a direct DecodeFromBytes with a nil feedback is a nil-interface call (panic) on exactly the truncated quotes
+// the property quantifies over. Every direct layer decode reachable from the inbound roots must pass a non-nil DecodeFeedback.
+func checkDecodeFeedback(c *Ctx, roots []*ssa.Function) {
+	R := c.R
+	n := 0
+	for _, f := range ModReach(c.P, roots...) {
+		for _, b := range f.Blocks {
+			for _, in := range b.Instrs {
+				ci, ok := in.(ssa.CallInstruction)
+				if !ok {
+					continue
+				}
+				cc := ci.Common()
+				var name string
+				var args []ssa.Value
+				if cc.IsInvoke() {
+					name, args = cc.Method.Name(), cc.Args
+				} else if cal := cc.StaticCallee(); cal != nil && cal.Signature.Recv() != nil && len(cc.Args) > 0 {
+					name, args = cal.Name(), cc.Args[1:]
+				}
+				if name != "DecodeFromBytes" || len(args) != 2 {
+					continue
+				}
+				if nt, ok := args[1].Type().(*types.Named); !ok || nt.Obj().Name() != "DecodeFeedback" {
+					continue
+				}
+				n++
+				fn := core.FuncName(f)
+				isNil := false
+				if cst, ok := args[1].(*ssa.Const); ok && cst.IsNil() {
+					isNil = true
+				}
+				R.Check(!isNil, "R09.3", fmt.Sprintf("%s#decode-feedback[%d]", fn, n), in.Pos(), fn, "direct layer decode passes a non-nil DecodeFeedback", "direct layer decode passes a nil DecodeFeedback: gopacket decoders call df.SetTruncated() on input shorter than the header, so a truncated packet panics here instead of being skipped")
+			}
+		}
+	}
+	R.Floor("R09.3:direct-decode-sites", n, 2)
 }
 
 // checkStateDeref is R09.3(c).
